@@ -254,7 +254,12 @@ Fixpoint stmt9 (fuel : nat) (s : st9) (t : term) {struct fuel} : st9 * out9 :=
                     | None => None
                     end
                else Some (map (fun z => show_Z (term_int z)) (term_list (term_nth src 1)))) with
-        | Some l => loop_each (S (length l)) s vars l (term_list (term_nth t 3))
+        | Some l =>
+            (* no loop variables: an error whatever the list holds *)
+            match vars with
+            | [] => (s, OError)
+            | _ => loop_each (S (length l)) s vars l (term_list (term_nth t 3))
+            end
         | None => (s, OError)
         end
       else if tg t "catch" then
